@@ -202,6 +202,22 @@ Theorem C08_exclude_wins : forall c, c_excluded c = true -> effective_mode c = M
 Proof. exact exclude_wins. Qed.
 Print Assumptions C08_exclude_wins.
 
+(* a repository ONE of whose remotes matches ONE of the exclusion patterns is excluded, whatever its other remotes
+   are - hence its effective mode is Local.  The quantifiers of should_exclude_prompts are read from the source. *)
+Theorem C08_matching_remote_excluded :
+  forall (glob : list N -> list N -> bool) patterns remotes u p,
+    In u remotes -> In p patterns -> glob p u = true ->
+    should_exclude glob patterns (Some remotes) = true.
+Proof. exact matching_remote_excluded. Qed.
+Print Assumptions C08_matching_remote_excluded.
+
+Theorem C08_excluded_repo_is_local :
+  forall (glob : list N -> list N -> bool) patterns remotes u p c,
+    In u remotes -> In p patterns -> glob p u = true ->
+    c_excluded c = should_exclude glob patterns (Some remotes) -> effective_mode c = MLocal.
+Proof. exact excluded_repo_is_local. Qed.
+Print Assumptions C08_excluded_repo_is_local.
+
 Theorem C08_notes_needs_opt_in :
   forall c, effective_mode c = MNotes ->
     c_excluded c = false /\
